@@ -78,7 +78,7 @@ class Resource(IResource):
         return 0 if units is None else units
 
     def __str__(self):
-        return self.name
+        return str(self.name)
 
     def __repr__(self):
         res = f'{self.name}\n'
